@@ -66,10 +66,38 @@ def gen():
             raise common.HarnessError('ASCII case mapping surprise at %d' % c)
     tb = _safe(lambda: cherrypy.tools.auth_basic, None)
     td = _safe(lambda: cherrypy.tools.auth_digest, None)
+    points = _safe(lambda: list(cherrypy._cprequest.hookpoints), ['before_handler'])
+
+    def tool_point(t):
+        p = getattr(t, '_point', None)
+        if isinstance(p, str):
+            return p
+        cands = [v for v in vars(t).values() if isinstance(v, str) and v in points]      # renamed attribute
+        return cands[0] if len(cands) == 1 else '?'
+
+    def tool_priority(t):
+        p = getattr(t, '_priority', None)
+        if isinstance(p, int):
+            return p
+        cands = [v for v in vars(t).values() if isinstance(v, int) and not isinstance(v, bool)]
+        return cands[0] if len(cands) == 1 else 0
+
+    def tool_calls(t, f):
+        return getattr(t, 'callable', None) is f or any(v is f for v in vars(t).values())
     stale_default = _safe(lambda: int(inspect.signature(auth_digest.HttpDigestAuthorization.is_nonce_stale).parameters[
         'max_age_seconds'].default), 0)
-    wa_alg = _safe(lambda: str(inspect.signature(auth_digest.www_authenticate).parameters['algorithm'].default), '?')
-    wa_qop = _safe(lambda: str(inspect.signature(auth_digest.www_authenticate).parameters['qop'].default), '?')
+    # what www_authenticate puts into a challenge when called the way _respond_401 calls it: read off its result
+    # (by execution), falling back to the signature defaults
+    import re
+
+    def chal_param(name):
+        v = auth_digest.www_authenticate('r', 'k')
+        m = re.search(r'\b%s="?([^",]*)"?' % name, v)
+        return m.group(1)
+    wa_alg = _safe(lambda: chal_param('algorithm'),
+                   _safe(lambda: str(inspect.signature(auth_digest.www_authenticate).parameters['algorithm'].default), '?'))
+    wa_qop = _safe(lambda: chal_param('qop'),
+                   _safe(lambda: str(inspect.signature(auth_digest.www_authenticate).parameters['qop'].default), '?'))
     valid_qops = _safe(lambda: _strs(auth_digest.valid_qops), ['?'])
     valid_algorithms = _safe(lambda: _strs(auth_digest.valid_algorithms), ['?'])
     fallback = _safe(lambda: str(auth_digest.FALLBACK_CHARSET), '?')
@@ -102,14 +130,14 @@ def gen():
     L.append('/-- default of is_nonce_stale(max_age_seconds=) -/')
     L.append('def maxAgeDefault : Nat := %d' % stale_default)
     L.append('/-- (hook point, priority) of cherrypy.tools.auth_basic / auth_digest -/')
-    L.append('def toolBasic : List Char × Nat := (%s, %d)' % (lean_str(_safe(lambda: str(tb._point), '?')),
-                                                              _safe(lambda: int(tb._priority), 0)))
-    L.append('def toolDigest : List Char × Nat := (%s, %d)' % (lean_str(_safe(lambda: str(td._point), '?')),
-                                                               _safe(lambda: int(td._priority), 0)))
+    L.append('def toolBasic : List Char × Nat := (%s, %d)' % (lean_str(_safe(lambda: tool_point(tb), '?')),
+                                                              _safe(lambda: tool_priority(tb), 0)))
+    L.append('def toolDigest : List Char × Nat := (%s, %d)' % (lean_str(_safe(lambda: tool_point(td), '?')),
+                                                               _safe(lambda: tool_priority(td), 0)))
     L.append('/-- the tools call basic_auth / digest_auth of the anchored modules -/')
     L.append('def toolCallables : Bool × Bool := (%s, %s)' % (
-        'true' if _safe(lambda: tb.callable is auth_basic.basic_auth, False) else 'false',
-        'true' if _safe(lambda: td.callable is auth_digest.digest_auth, False) else 'false'))
+        'true' if _safe(lambda: tool_calls(tb, auth_basic.basic_auth), False) else 'false',
+        'true' if _safe(lambda: tool_calls(td, auth_digest.digest_auth), False) else 'false'))
     L.append('')
     L.append('end CpModel.Gen.C19')
     return {'CpModel/Gen/C19Tables.lean': '\n'.join(L) + '\n'}
